@@ -72,4 +72,10 @@ theorem text_JWKCache_Cleanup_ok : Oidc.Shapes.Text_JWKCache_Cleanup := by unfol
 theorem text_TraefikOidc_buildURLWithParams_ok : Oidc.Shapes.Text_TraefikOidc_buildURLWithParams := by unfold Oidc.Shapes.Text_TraefikOidc_buildURLWithParams; rfl
 theorem text_New_ok : Oidc.Shapes.Text_New := by unfold Oidc.Shapes.Text_New; rfl
 
+
+/-! ## Program text of the helpers these theorems also rest on (constructors, accessors, token endpoint, configuration) -/
+theorem text_fetchJWKS_ok : Oidc.Shapes.Text_fetchJWKS := by unfold Oidc.Shapes.Text_fetchJWKS; rfl
+theorem text_TraefikOidc_startTokenCleanup_ok : Oidc.Shapes.Text_TraefikOidc_startTokenCleanup := by unfold Oidc.Shapes.Text_TraefikOidc_startTokenCleanup; rfl
+theorem text_createStringMap_ok : Oidc.Shapes.Text_createStringMap := by unfold Oidc.Shapes.Text_createStringMap; rfl
+
 end Oidc.Props.C05
